@@ -5,7 +5,7 @@ import ast
 from ..core import rule
 from ..program import AnalysisError
 from ..abpe import split_tuple
-from ..dataflow import names_in_target
+from ..dataflow import names_in_target, node_root
 from ..effects import TRIE_NODE, STORAGES, self_attr
 from ..guards import guard_facts, holds_cmp
 from .table_rules import tables, base, first_idx
@@ -414,6 +414,38 @@ def link_walk(ctx, rr):
                                 detail={'row': r.show()[:300]}, stmt=name + ' walk'))
         for r in rows:
             early = [e for e in r.events if e.kind == 'return'] if name != 'link_nodes_iter' else []
+    # de-duplication: whatever is handed out has been put into the "already seen" set first (the head included)
+    dd = P.method('LinkStore', 'deduped_link_nodes_iter')
+    from ..dataflow import rtext as _rtd
+    seen_sets = {c.func.value.id for c in P.own(dd, ast.Call) if isinstance(c.func, ast.Attribute) and c.func.attr == 'add' and isinstance(c.func.value, ast.Name)}
+    seen_sets |= {a.targets[0].id for a in P.own(dd, ast.Assign) if isinstance(a.targets[0], ast.Name) and isinstance(a.value, (ast.Set, ast.SetComp))}
+    if seen_sets and not any(isinstance(f_, ast.For) for f_ in P.own(dd, ast.For)):
+        gd = ctx.cfg(dd)
+
+        def trd(nd, st):
+            root = node_root(nd)
+            if root is None:
+                return st
+            add = set()
+            for c in ast.walk(root):
+                if isinstance(c, ast.Call) and isinstance(c.func, ast.Attribute) and c.func.attr == 'add' and isinstance(c.func.value, ast.Name) and c.func.value.id in seen_sets and c.args:
+                    add.add(_rtd(P, dd, c.args[0]))
+                if isinstance(c, ast.Set) and isinstance(nd.ast, ast.Assign) and any(isinstance(t, ast.Name) and t.id in seen_sets for t in nd.ast.targets):
+                    add |= {_rtd(P, dd, e_) for e_ in c.elts}
+            return st | frozenset(add)
+        from ..cfg import solve_forward as _sfd
+        IND = _sfd(gd, frozenset(), trd, lambda lab, st: st, lambda a, b: a & b)
+        for nd in gd.nodes:
+            root = node_root(nd)
+            if root is None or nd.id not in IND:
+                continue
+            for y in ast.walk(root):
+                if isinstance(y, ast.Yield) and y.value is not None:
+                    okd = _rtd(P, dd, y.value) in trd(nd, IND[nd.id])
+                    rr.ob(ctx.where(dd, y), 'deduped_link_nodes_iter remembers `%s` before (or when) it hands it out' % ast.unparse(y.value)[:30], ok=okd)
+                    if not okd:
+                        rr.fail(ctx.finding('R-LINK-WALK', dd, y, 'deduped_link_nodes_iter yields `%s` without recording it as seen: the same neighbour met again further down the list is '
+                                            'handed out a second time, so distinct-neighbour counts (indegree, cited webentities) are too high' % ast.unparse(y.value)[:30], stmt='dedupe memory'))
     w = P.method('LinkStore', 'weighted_link_nodes_iter')
     wrows = tables(ctx, w, iters=2, keep=lambda n_, c: n_ in ('read_previous', 'has_previous'))
     okw = True
